@@ -263,3 +263,73 @@ func VerifC06_ConcurrentConnections() {
 	sym.Assert(len(st.pipes) == 2+sym.Tier(), "one pipeline per distinct tuple")
 	sym.Reach("done")
 }
+
+// VerifC05_TwoConnectionsPerKeyOrder: two connections (own sinks, own
+// goroutines) each send two records with a symbolic key set per record and a
+// symbolic tick, interleaved by the scheduler (one deviation from round robin;
+// thorough: plus one preemption at any lock / channel operation): in every pipeline the
+// records of one connection appear in that connection's arrival order, and
+// nothing is lost between the connections and the pipelines.
+//
+//verif:native off
+//verif:preempt 0
+//verif:thorough preempt 1
+//verif:delays 1
+//verif:clock virtual
+//verif:reach done two-keys
+//verif:paths 400000
+func VerifC05_TwoConnectionsPerKeyOrder() {
+	defer func(v int) { defs.IntermediateBufferMaxNumLogs = v }(defs.IntermediateBufferMaxNumLogs)
+	defs.IntermediateBufferMaxNumLogs = 2
+	var drains []*verifDrain
+	starter := func(l logger.Logger, m promreg.MetricCreator, input <-chan []*base.LogRecord, bufferID string, outputTag string, onStopped func()) {
+		d := &verifDrain{id: bufferID, done: make(chan struct{})}
+		drains = append(drains, d)
+		go func() {
+			for batch := range input {
+				for _, r := range batch {
+					d.msgs = append(d.msgs, r.Fields[2])
+				}
+			}
+			onStopped()
+			close(d.done)
+		}()
+	}
+	o := NewOrchestrator(logger.Root(), verifSchema, []string{"app", "level"}, "t.$app", fakes.NewMetrics(), starter, nil)
+	finished := make(chan struct{}, 2)
+	n := 2
+	conn := func(c byte) {
+		sink := o.NewSink("client", base.ClientNumber(c))
+		for i := 0; i < n; i++ {
+			app := []string{"a", "b"}[sym.Choice("app", 2)]
+			sink.Accept([]*base.LogRecord{verifSchema.NewTestRecord1(base.LogFields{app, "x", string([]byte{'0' + c, byte('0' + i)})})})
+			if i == 0 && sym.Bool("tick") {
+				sink.Tick()
+			}
+		}
+		sink.Close()
+		finished <- struct{}{}
+	}
+	go conn(1)
+	go conn(2)
+	<-finished
+	<-finished
+	o.Shutdown()
+	total := 0
+	for _, d := range drains {
+		last := map[byte]byte{}
+		for _, msg := range d.msgs {
+			c, seq := msg[0], msg[1]
+			if prev, seen := last[c]; seen {
+				sym.Assert(seq > prev, "records of one connection and key set reach the pipeline in arrival order, whatever the other connection does")
+			}
+			last[c] = seq
+		}
+		total += len(d.msgs)
+	}
+	sym.Assert(total == 2*n, "no record is lost or duplicated between the connections and the pipelines")
+	if len(drains) == 2 {
+		sym.Reach("two-keys")
+	}
+	sym.Reach("done")
+}
